@@ -65,8 +65,12 @@ EdExpected(e) ==
          ELSE <<TRUE, PtAdd(MSMJoint(o.ss, SubSeq(PtsOf(e.static_points), 1, Len(o.ss))), MSMJoint(o.ds, PtsOf(e.dynamic_points)))>>
 
 \* a panicking event has obs = {}; evaluate the expectation only when the call returned
+\* "misuse": a call the documentation calls an error (iterators of inconsistent lengths).  The specification leaves its
+\* outcome open; it is in the request stream because C05 demands that the outcome (a value or a panic) does not depend on
+\* the configuration (TraceEquiv).
 EdPointStep(e) ==
-  IF ~NoPanic(e) THEN Note(FALSE, e, "panic") /\ SetReg(e.out, NoneVal)
+  IF Has(e, "misuse") THEN Note(TRUE, e, "") /\ SetReg(e.out, NoneVal)
+  ELSE IF ~NoPanic(e) THEN Note(FALSE, e, "panic") /\ SetReg(e.out, NoneVal)
   ELSE LET x == EdExpected(e)  o == e.obs IN
        /\ Note(/\ o.ok = x[1]
                /\ (x[1] => PtObsOK(o.r, x[2]))
